@@ -135,6 +135,7 @@ class World:
                 ul = [d for d in m.undoLog() if d['_n']]
                 if len(ul) >= 2 and not ul[0]['_dup'] and not ul[1]['_dup']:
                     ops.append(('undo2', 0, 1))
+                    ops.append(('undo2', 1, 0))     # older one first
             elif k == 'stale':
                 for o in live:
                     if len(m.recs(self.oid(o))) >= 2:
@@ -427,7 +428,7 @@ class World:
                 dc = c.resolve()
                 if du is None or dc is None:
                     return None     # nothing to compare: refused
-                same = du == dc
+                same = self._norm(du) == self._norm(dc)
         if same:
             if pre is None:
                 return Rec(u.oid, 'zero')
@@ -442,6 +443,15 @@ class World:
             return None
         return Rec(u.oid, 'data', merged)
 
+    @staticmethod
+    def _norm(x):
+        """bytes, or the decoded form for a record merged earlier in this
+        transaction (whose bytes are not known yet)."""
+        if isinstance(x, tuple) and x and x[0] == 'sem':
+            return x[1:]
+        d = hclasses.decode(x)
+        return d if d is not None else x
+
     def _resolve(self, oid, c, serial, data):
         """Three-way merge for a stale store; None = conflict."""
         old = None
@@ -455,7 +465,10 @@ class World:
 
     def _merge(self, old, committed, new):
         """Semantic merge ('sem', cls, v, refs, pad) or None."""
-        d = [hclasses.decode(x) for x in (old, committed, new)]
+        # (a record merged earlier in the same transaction is still in its
+        # semantic form)
+        d = [x[1:] if isinstance(x, tuple) and x and x[0] == 'sem'
+             else hclasses.decode(x) for x in (old, committed, new)]
         if any(x is None for x in d):
             return None
         if d[2][0] != 'R':
@@ -561,11 +574,27 @@ class World:
                      dict(last=before_last, new=rtid))
             if not isinstance(rtid, bytes):
                 return 'error'
-        # adopt bytes of merged records after checking their meaning
-        for rec in recs:
+        # adopt bytes of merged records after checking their meaning (the
+        # records of this transaction, in order, from the iterator: with two
+        # records for one oid only the last is reachable by oid)
+        stored = None
+        if any(rec.kind == 'data' and isinstance(rec.data, tuple)
+               for rec in recs):
+            it = s.iterator(rtid, rtid)
+            try:
+                stored = [r.data for t2 in it for r in t2]
+            finally:
+                getattr(it, 'close', lambda: None)()
+            if self.flavor != 'F':
+                stored = None
+        for i, rec in enumerate(recs):
             if rec.kind == 'data' and isinstance(rec.data, tuple):
-                got = call(s.loadSerial, rec.oid, rtid)
-                dec = None if isinstance(got, Exc) else hclasses.decode(got)
+                if stored is not None and len(stored) == len(recs):
+                    got = stored[i]
+                else:
+                    got = call(s.loadSerial, rec.oid, rtid)
+                dec = None if isinstance(got, Exc) or got is None \
+                    else hclasses.decode(got)
                 if dec != rec.data[1:]:
                     self.bad('step', 'merged-state',
                              dict(expected=rec.data, got=repr(dec)))
